@@ -1,0 +1,121 @@
+//! Verification hooks. Compiled only with the cargo feature `verif`
+//! (off by default); nothing in here is reachable from a normal build.
+//!
+//! * entropy: `CLEAR`/`RUN`/`NEW` reseed `RND` from a thread-local
+//!   generator the simulator seeds, instead of `rand::random`.
+//! * clock: `DATE$`/`TIME$` read strings the simulator sets.
+//! * fuel: `tick(site)` sits in the hand-written loops; the simulator
+//!   sets a budget per API call and an exhausted budget panics with a
+//!   recognisable payload so that an endless loop becomes a deterministic
+//!   verdict. The per-site counters double as an executed-instruction
+//!   counter (`SITE_EXEC`).
+
+use std::cell::{Cell, RefCell};
+
+pub const SITE_LEX_LINENO: usize = 0;
+pub const SITE_LEX_NEXT: usize = 1;
+pub const SITE_LEX_WHITESPACE: usize = 2;
+pub const SITE_LEX_NUMBER: usize = 3;
+pub const SITE_LEX_STRING: usize = 4;
+pub const SITE_LEX_ALPHABETIC: usize = 5;
+pub const SITE_LEX_RADIX: usize = 6;
+pub const SITE_LEX_MINUTIA: usize = 7;
+pub const SITE_LEX_POST: usize = 8;
+pub const SITE_TOKEN_SCAN: usize = 9;
+pub const SITE_PARSE_NEXT: usize = 10;
+pub const SITE_PARSE_STATEMENTS: usize = 11;
+pub const SITE_PARSE_LIST: usize = 12;
+pub const SITE_PARSE_EXPR: usize = 13;
+pub const SITE_EXEC: usize = 14;
+pub const SITE_EXEC_NEXT: usize = 15;
+pub const SITE_EXEC_RETURN: usize = 16;
+pub const SITE_EXEC_INPUT_UNWIND: usize = 17;
+pub const SITE_FN_VAL: usize = 18;
+pub const SITE_RENUM: usize = 19;
+pub const SITES: usize = 20;
+
+pub const FUEL_PANIC: &str = "VERIF-FUEL-EXHAUSTED";
+
+thread_local! {
+    static ENTROPY: Cell<u64> = const { Cell::new(0x9E37_79B9_7F4A_7C15) };
+    static ENTROPY_DRAWS: Cell<u64> = const { Cell::new(0) };
+    static DATE: RefCell<String> = const { RefCell::new(String::new()) };
+    static TIME: RefCell<String> = const { RefCell::new(String::new()) };
+    static CLOCK_READS: Cell<u64> = const { Cell::new(0) };
+    static BUDGET: Cell<u64> = const { Cell::new(0) };
+    static USED: Cell<u64> = const { Cell::new(0) };
+    static COUNTS: RefCell<[u64; SITES]> = const { RefCell::new([0; SITES]) };
+}
+
+/// Seed the generator behind `CLEAR`/`RUN`/`NEW`.
+pub fn set_entropy(seed: u64) {
+    ENTROPY.with(|e| e.set(seed));
+}
+
+/// Number of 32-bit draws made so far on this thread.
+pub fn entropy_draws() -> u64 {
+    ENTROPY_DRAWS.with(|d| d.get())
+}
+
+/// splitmix64 step, upper 32 bits.
+pub fn entropy_u32() -> u32 {
+    ENTROPY_DRAWS.with(|d| d.set(d.get() + 1));
+    ENTROPY.with(|e| {
+        let mut z = e.get().wrapping_add(0x9E37_79B9_7F4A_7C15);
+        e.set(z);
+        z = (z ^ (z >> 30)).wrapping_mul(0xBF58_476D_1CE4_E5B9);
+        z = (z ^ (z >> 27)).wrapping_mul(0x94D0_49BB_1331_11EB);
+        z ^= z >> 31;
+        (z >> 32) as u32
+    })
+}
+
+/// Set what `DATE$` ("%m-%d-%Y") and `TIME$` ("%H:%M:%S") return.
+pub fn set_clock(date: &str, time: &str) {
+    DATE.with(|d| *d.borrow_mut() = date.to_string());
+    TIME.with(|t| *t.borrow_mut() = time.to_string());
+}
+
+pub fn clock_reads() -> u64 {
+    CLOCK_READS.with(|c| c.get())
+}
+
+pub fn date_string() -> String {
+    CLOCK_READS.with(|c| c.set(c.get() + 1));
+    DATE.with(|d| d.borrow().clone())
+}
+
+pub fn time_string() -> String {
+    CLOCK_READS.with(|c| c.set(c.get() + 1));
+    TIME.with(|t| t.borrow().clone())
+}
+
+/// Start a new fuel budget (0 = unlimited) and reset the used counter.
+pub fn set_budget(budget: u64) {
+    BUDGET.with(|b| b.set(budget));
+    USED.with(|u| u.set(0));
+}
+
+pub fn fuel_used() -> u64 {
+    USED.with(|u| u.get())
+}
+
+pub fn site_count(site: usize) -> u64 {
+    COUNTS.with(|c| c.borrow()[site])
+}
+
+#[inline]
+pub fn tick(site: usize) {
+    COUNTS.with(|c| c.borrow_mut()[site] += 1);
+    let used = USED.with(|u| {
+        let n = u.get() + 1;
+        u.set(n);
+        n
+    });
+    let budget = BUDGET.with(|b| b.get());
+    if budget != 0 && used > budget {
+        // Disarm first so that unwinding code cannot trip it again.
+        BUDGET.with(|b| b.set(0));
+        panic!("{} site={}", FUEL_PANIC, site);
+    }
+}
